@@ -234,7 +234,11 @@ func vfStartFileSystem(r *vfRun, initial []byte) (*vfFileSystem, error) {
 		v.peer.files["/f"] = append([]byte(nil), initial...)
 		c2s, s2c = v.peer.c2s, v.peer.s2c
 		v.name = "/f"
-		v.served = func() []byte { v.peer.mu.Lock(); defer v.peer.mu.Unlock(); return append([]byte(nil), v.peer.files["/f"]...) }
+		v.served = func() []byte {
+			v.peer.mu.Lock()
+			defer v.peer.mu.Unlock()
+			return append([]byte(nil), v.peer.files["/f"]...)
+		}
 	}
 	if sc.cfg("nofragc", 0) != 0 {
 		c2s.noFrag, s2c.noFrag = true, true
